@@ -449,6 +449,9 @@ class Inspector:
 
         obj: Attribute | Function
         labels = labels or set()
+        if node.is_coroutine:
+            # Methods, static methods and class methods are classified before coroutines.
+            labels.add("async")
         if "property" in labels:
             obj = Attribute(
                 name=node.name,
